@@ -46,6 +46,13 @@ func execDescJSON(s *Sexp) string {
 		if err != nil {
 			return "err"
 		}
+		if len(s.List) > 6 {
+			// the op fixes the bytes (map iteration order varies between Marshal calls)
+			data, err = unhx(s.List[6].Atom)
+			if err != nil {
+				return "bad-op"
+			}
+		}
 		d := cd.Descriptor()
 		switch via {
 		case "plenc":
@@ -74,6 +81,67 @@ func execDescJSON(s *Sexp) string {
 			return "err"
 		}
 		return "ok " + hx(out.Done())
+	})
+}
+
+// recOut records the Outputter calls in the model's OCall syntax.
+type recOut struct{ calls []string }
+
+func (r *recOut) StartObject()       { r.calls = append(r.calls, "so") }
+func (r *recOut) EndObject()         { r.calls = append(r.calls, "eo") }
+func (r *recOut) StartArray()        { r.calls = append(r.calls, "sa") }
+func (r *recOut) EndArray()          { r.calls = append(r.calls, "ea") }
+func (r *recOut) NameField(n string) { r.calls = append(r.calls, "(n "+hxs(n)+")") }
+func (r *recOut) Int64(v int64)      { r.calls = append(r.calls, fmt.Sprintf("(i64 %d)", v)) }
+func (r *recOut) Uint64(v uint64)    { r.calls = append(r.calls, fmt.Sprintf("(u64 %d)", v)) }
+func (r *recOut) Float64(v float64) {
+	r.calls = append(r.calls, fmt.Sprintf("(f64 %d)", math.Float64bits(v)))
+}
+func (r *recOut) Float32(v float32) {
+	r.calls = append(r.calls, fmt.Sprintf("(f32 %d)", math.Float32bits(v)))
+}
+func (r *recOut) String(v string) { r.calls = append(r.calls, "(s "+hxs(v)+")") }
+func (r *recOut) Bool(v bool) {
+	if v {
+		r.calls = append(r.calls, "(b 1)")
+	} else {
+		r.calls = append(r.calls, "(b 0)")
+	}
+}
+func (r *recOut) Time(t time.Time) {
+	r.calls = append(r.calls, fmt.Sprintf("(t %d %d)", t.Unix(), t.Nanosecond()))
+}
+func (r *recOut) Raw(v string) { r.calls = append(r.calls, "(raw "+hxs(v)+")") }
+
+var lastDescJSON string
+
+// execDescCalls: like descjson, but the comparable output is the recorded call
+// sequence; the JSON rendering of the same walk is kept for the oracle.
+func execDescCalls(s *Sexp) string {
+	lastDescJSON = ""
+	res := execDescJSON(s)
+	lastDescJSON = res
+	if !strings.HasPrefix(res, "ok ") {
+		return res
+	}
+	c, err := parseCtx(s)
+	if err != nil {
+		return "bad-op"
+	}
+	v, _ := parseVal(s.List[4])
+	return guard(func() string {
+		cd, _ := c.codec()
+		pv, _ := c.newValue(v)
+		data, _ := c.marshalPtr(pv)
+		if len(s.List) > 6 {
+			data, _ = unhx(s.List[6].Atom)
+		}
+		d := cd.Descriptor()
+		var rec recOut
+		if err := d.Read(&rec, data); err != nil {
+			return "err"
+		}
+		return "ok " + strings.Join(rec.calls, " ")
 	})
 }
 
@@ -163,6 +231,9 @@ func toJ(t *TyDef, v *Val, opt string) (interface{}, bool) {
 				}
 				if e[1].K == "p" && e[1].P == nil {
 					x = nil // absent pointer / invalid null.X: null
+				} else if omitted(t.Elem, e[1]) {
+					// omitted on the wire (zero, -0.0, empty): rendered as the zero value
+					x, _ = toJ(t.Elem, zeroVal(t.Elem), "")
 				}
 				obj[string(e[0].Data)] = x
 			}
@@ -368,7 +439,11 @@ func runC13(r *Runner, g *Gen, tier string) string {
 		g.finiteFloats = false
 		g.noNarrowFlat = false
 		via := g.r.Pick("direct", "direct", "plenc", "json")
-		r.Do(codecOp("descjson", cfg, t, "", v.Sexp(), A(via)), nontrivialVal(t, v), "descjson."+via)
+		enc := execOp(codecOp("enc", cfg, t, "", v.Sexp()))
+		if !strings.HasPrefix(enc, "ok x") {
+			continue
+		}
+		r.Do(codecOp("desccalls", cfg, t, "", v.Sexp(), A(via), A(enc[3:])), nontrivialVal(t, v), "desccalls."+via)
 	}
 	return "generated struct types and values; op = Marshal, then Descriptor.Read with the JSON outputter, the descriptor taken directly / after a plenc round trip / after an encoding/json round trip; oracle: json.Valid and content equal to the value in the JSON data model (objects by field name with omitted fields absent, arrays element for element, string-keyed maps as objects, other maps as key/value lists compared as multisets, pointers as targets, RFC3339 times, numbers by value)"
 }
